@@ -60,6 +60,14 @@ func cmdWorld(prop string, seed uint64, n int, steps int, out string) {
 					if hr.Bool() {
 						w.Reopen()
 						w.VerifyAll(true)
+						if hr.Chance(60) {
+							// type changes on clean (just reloaded) containers must be persisted too
+							w.Retype(1 + hr.Intn(3))
+							w.VerifyAll(true)
+							w.Commit(1 + hr.Intn(4))
+							w.Reopen()
+							w.VerifyAll(true)
+						}
 					}
 				}
 			}
